@@ -3,7 +3,7 @@
    Vocabulary (C04/Model.v): an element is its bit pattern x < 2^bitwidth; `logical dt shape xs` = the
    dtype has a bit width, every element is in range and there are prod(shape) of them; `represents dt
    shape xs r` = r is one of the representations built from that data (array-backed Tensor with any
-   storage whose low bits are the elements, TorchTensor, PackedTensor, proto-backed through raw_data /
+   storage whose low bits are the elements, TorchTensor (also over a lazily conjugated view), PackedTensor, proto-backed through raw_data /
    int32_data / int64_data / uint64_data / float_data / double_data with any legal widening of the stored
    integers, ExternalTensor over a file  pre ++ bytes ++ post  at offset |pre| (or offset None with pre = []),
    LazyTensor over any of them); `le_pack` is the ONNX little-endian packed encoding stated arithmetically.
@@ -113,15 +113,14 @@ Theorem C04_external_any_offset :
 Proof. exact external_any_offset. Qed.
 Print Assumptions C04_external_any_offset.
 
-(* KNOWN FINDING torch-conj-bytes: a TorchTensor over a lazily conjugated complex torch view (RTorchConj, not
-   among the `represents` constructors) returns the conjugated values from numpy() but the unconjugated storage
-   from tobytes()/tofile(); proposed_fixes/C04-torch-conj-bytes.diff resolves the view first. *)
-Theorem C04_torch_conj_refuted :
+(* A TorchTensor over a lazily conjugated complex torch view (RTorchConj, a `represents` constructor since fix
+   c3d2ba2) is covered by the theorems above; before the fix its tobytes()/tofile() returned the unresolved storage. *)
+Theorem C04_torch_conj_refuted_before_fix :
   exists dt shape storage xs,
     logical dt shape xs /\ r_numpy (RTorchConj dt shape storage) = Ok xs
-    /\ r_tobytes (RTorchConj dt shape storage) <> Ok (le_pack dt xs).
-Proof. exact torch_conj_refuted. Qed.
-Print Assumptions C04_torch_conj_refuted.
+    /\ tobytes_conj_before_fix dt storage <> Ok (le_pack dt xs).
+Proof. exact torch_conj_refuted_before_fix. Qed.
+Print Assumptions C04_torch_conj_refuted_before_fix.
 
 (* Serialization keeps the data: the proto written for a representation represents the same data. *)
 Theorem C04_serialize_represents :
